@@ -943,6 +943,9 @@ def run_matrix(case, ctx):
         ctx.nontrivial()
 
 
+# libFuzzer executions per shard and @given test of the coverage-guided extra of the thorough tier (vp/fuzz.py)
+FUZZ = 2000
+
 TESTS = [
     Test('simplify', run_simplify, strategy=lambda tier: simplify_cases(tier),
          examples={'quick': QUICK_SIMPLIFY, 'thorough': 40000}),
